@@ -2136,6 +2136,11 @@ def truthy(v):
         return True if any(p[0] == "const" and p[1] for p in v[1]) else None
     if v[0] in ("list", "tuple"):
         return bool(v[1])
+    # `c is None` / `c is not None` between constants (a defaulted parameter bound to a constant): identity with None is decided by value
+    if v[0] == "cmp" and len(v) == 3 and len(v[1]) == 1 and v[1][0] in ("Is", "IsNot") and len(v[2]) == 2 and all(x[0] == "const" for x in v[2]) \
+            and any(x[1] is None for x in v[2]):
+        same = v[2][0][1] is None and v[2][1][1] is None
+        return same if v[1][0] == "Is" else not same
     return None
 
 
